@@ -394,6 +394,9 @@ func (e *emitter) sliceBounds(t *ast.SliceExpr, xs string) (lo, hi string) {
 
 func (e *emitter) compositeLit(t *ast.CompositeLit) string {
 	typ := e.typeOf(t)
+	if isNamed(typ, "strings", "Builder") {
+		return "([] : Go.Bytes)"
+	}
 	switch u := typ.Underlying().(type) {
 	case *types.Slice:
 		var els []string
@@ -1094,6 +1097,12 @@ func (e *emitter) callLib(call *ast.CallExpr, lib string, want int) []string {
 		return []string{n}
 	case "(time.Duration).Milliseconds":
 		return []string{"(Int.tdiv " + e.expr(call.Fun.(*ast.SelectorExpr).X) + " 1000000)"}
+	case "(*strings.Builder).Write", "(*strings.Builder).WriteString":
+		recv := call.Fun.(*ast.SelectorExpr).X
+		e.assignTo(recv, "("+e.pureRead(recv)+" ++ "+arg(0)+")")
+		return []string{"(Go.len " + arg(0) + ")", "(none : Go.Err)"}[:want]
+	case "(*strings.Builder).String":
+		return []string{e.expr(call.Fun.(*ast.SelectorExpr).X)}
 	case "log.Println", "log.Printf", "log.Print":
 		// logging has no effect the translation can see; the arguments are still evaluated
 		for i := range call.Args {
